@@ -26,7 +26,11 @@ RULE = ("part 'histories': a generated program whose datasets all read a nonce o
         "evaluatable / constant members), 1-2 interfaces, implementations (valid, missing-abstract, unknown-member, "
         "members in every declaration order, list aliases, multi-interface) and dictionaries: under one dictionary all "
         "members resolve to the same alias, un-overridden members use the interface default, an invalid implementation "
-        "raises TypeError at definition and leaves every member's table unchanged. Non-trivial (histories) = a "
+        "raises TypeError at definition and leaves every member's table unchanged. part 'derived': copies of one dataset "
+        "are made with with_options / with_default_options, THEN implementations are registered (overload decorator or "
+        "register) on the parent or through a copy, and parent and copies are evaluated with fresh nonces against one "
+        "shared registry model under the overlaid dictionary (non-trivial = a copy made before a registration selects "
+        "that registration). Non-trivial (histories) = a "
         "registration after an evaluation and >=2 dispatch values evaluated; (interfaces) = >=2 implementations incl. "
         "an invalid one, or >=2 aliases evaluated; distinct = distinct case hash.")
 ASSUMPTIONS = [
@@ -419,10 +423,111 @@ def interface_cases(draw):
     return {"interfaces": idefs, "impls": impls, "options": opts}
 
 
+
+# ---- part 'derived': copies made by with_options / with_default_options BEFORE a registration -------------------------
+# (seeded change C07-agent6: the constructor took a private copy of the overload table, so a registration made on the
+# parent after a copy had been derived never reached the copy, and one made through the copy never reached the parent)
+D_ALIASES = ["a", "b", 1]
+D_PRESETS = [{"K": "a"}, {"K": "b"}, {"K": 1}, {"Z": 0}, {"K": "zz"}, {}]
+
+
+def _mk_impl(tag):
+    def impl(n=Option("N")):
+        return (tag, n)
+    impl.__name__ = "impl_%s" % tag
+    return impl
+
+
+def check_derived(case, ctx):
+    ops = case["ops"]
+    if not isinstance(ops, list) or not all(isinstance(op, dict) and "op" in op for op in ops):
+        ctx.done(case, False, ["malformed"])
+        return
+    if any(not isinstance(d.get("K", 0), (str, int)) for op in ops for d in (op.get("o", {}), op.get("preset", {}))):
+        ctx.done(case, False, ["malformed"])  # (the reducer may put an unhashable dispatch value there)
+        return
+    disp = Option("K") if case["dispatch"] == "option" else (Option("K", "a") if case["dispatch"] == "defaulted" else "K")
+    kw = {"callback": (lambda v: ("cb",) + tuple(v))} if case.get("callback") else {}
+
+    @dataset(dispatch=disp, **kw)
+    def base(n=Option("N")):
+        return ("default", n)
+
+    objs = [(base, None, None)]          # (dataset, kind, preset)
+    table = {}                           # the ONE registry every copy shares
+    nonce = 0
+    labels = set()
+    derived_before_registration = evaluated_copy_after = False
+    for i, op in enumerate(ops):
+        if op["op"] == "derive":
+            src, kind, preset = objs[op["src"] % len(objs)][0], op["kind"], copy.deepcopy(op["preset"])
+            if objs[op["src"] % len(objs)][1] is not None:
+                src = base                # one layer only: stacking of layers is C08's subject
+            objs.append((getattr(src, kind)(preset), kind, op["preset"]))
+        elif op["op"] == "register":
+            target = objs[op["target"] % len(objs)][0]
+            alias = tuple(op["alias"]) if isinstance(op["alias"], list) else op["alias"]
+            tag = "t%d" % i
+            if op["how"] == "overload":
+                target.overload(alias)(_mk_impl(tag))
+            else:
+                target.register(alias, dataset(_mk_impl(tag)))
+            table[alias] = tag
+            if len(objs) > 1:
+                derived_before_registration = True
+                labels.add("registered-on-" + ("copy" if objs[op["target"] % len(objs)][1] else "parent"))
+        else:
+            obj, kind, preset = objs[op["obj"] % len(objs)]
+            nonce += 1
+            o = dict(copy.deepcopy(op["o"]), N=nonce)
+            eff = dict(o)
+            if kind == "with_options":
+                eff.update(preset)
+            elif kind == "with_default_options":
+                eff = dict(preset, **o)
+            if "K" in eff:
+                v = tuple(eff["K"]) if isinstance(eff["K"], list) else eff["K"]
+            else:
+                v = "a" if case["dispatch"] == "defaulted" else None
+            want = (table.get(v, "default") if v is not None else "default", nonce)
+            if case.get("callback"):
+                want = ("cb",) + want
+            got = run(obj.evaluate, o)
+            if not got.ok or got.value != sem.typed(want):
+                raise Violation("derived-copy-vs-registry",
+                                f"op {i}: {'copy made by ' + kind + '(' + repr(preset) + ')' if kind else 'parent'} on {o} "
+                                f"(dispatch value {v!r}, registry {table}) gave {got!r} ({got.exc!r}), expected {want}")
+            if kind and derived_before_registration and v in table:
+                evaluated_copy_after = True
+                labels.add("copy-sees-late-registration")
+    ctx.done(case, evaluated_copy_after, labels)
+
+
+@st.composite
+def derived_cases(draw):
+    n = draw(st.integers(3, 10))
+    ops = [{"op": "derive", "src": 0, "kind": draw(st.sampled_from(["with_options", "with_default_options"])),
+            "preset": draw(st.sampled_from(D_PRESETS))}]
+    for _ in range(n):
+        k = draw(st.sampled_from(["derive", "register", "register", "evaluate", "evaluate", "evaluate"]))
+        if k == "derive":
+            ops.append({"op": "derive", "src": draw(st.integers(0, 3)), "kind": draw(st.sampled_from(["with_options", "with_default_options"])),
+                        "preset": draw(st.sampled_from(D_PRESETS))})
+        elif k == "register":
+            a = draw(st.sampled_from(D_ALIASES))
+            ops.append({"op": "register", "target": draw(st.integers(0, 3)), "alias": list(a) if isinstance(a, tuple) else a,
+                        "how": draw(st.sampled_from(["overload", "register"]))})
+        else:
+            o = draw(st.sampled_from([{}, {"K": "a"}, {"K": "b"}, {"K": 1}, {"K": "zz"}, {"K": 0}, {"Z": 1}]))
+            ops.append({"op": "evaluate", "obj": draw(st.integers(0, 3)), "o": o})
+    return {"dispatch": draw(st.sampled_from(["option", "defaulted", "key"])), "callback": draw(st.booleans()), "ops": ops}
+
+
 # derived=False and self_overload=0: set_dispatch / register on a dataset do not reach copies derived from it earlier
 # (documented as stateful), so copies (also those inside self-referential overloads) are not generated here
 PROFILE = specgen.profile(depth=2, domain_rate=0.0, max_defs=4, effects=True, lazy_root=False, total_preds=True, derived=False, self_overload=0, dclass=False)
 PARTS = [
     Part("histories", check_history, strategy=lambda ctx: history_cases(PROFILE), budget={"quick": 250, "thorough": 1500}),
     Part("interfaces", check_interfaces, strategy=lambda ctx: interface_cases(), budget={"quick": 500, "thorough": 3000}),
+    Part("derived", check_derived, strategy=lambda ctx: derived_cases(), budget={"quick": 600, "thorough": 5000}),
 ]
